@@ -9,6 +9,7 @@
   distinct" (true of every real directory).
 -/
 import Signac.Proofs.SyncMore
+import Signac.Proofs.SyncIdem
 import Signac.Proofs.SyncParallel
 namespace Signac.C13
 open Signac Signac.Sync
@@ -122,9 +123,41 @@ theorem sync_dst_only_keys_untouched (ks : Option (String → Bool)) (s d : Doc)
 theorem sync_dst_only_keys_untouched_update (s d : Doc) (k : String) (h : k ∉ keys s) :
     lookupKV k (runDocSync .update s d).doc = lookupKV k d := updateItems_other k s d h
 
-/-- The full idempotence statement of C13 ("repeating the same sync changes nothing").  Not proved
-    in Lean in this generality; it is checked on every generated case by running each real call
-    twice and comparing the model with the second call, too. -/
+/-- Idempotence of the file synchronisation (`_sync_job_workspaces`, at every depth, for every
+    strategy / exclusion / comparison mode): after a successful real walk, walking again over the
+    result changes nothing and succeeds. -/
+theorem sync_idempotent_files (o : Opts) (hdry : o.dry = false) (sjob djob : Entries) (sub : Path)
+    (hwf : WFEntries sjob) (hok : (walkDir o sub (.dir sjob) djob).err = none) :
+    (walkDir o sub (.dir sjob) (walkDir o sub (.dir sjob) djob).d).d = (walkDir o sub (.dir sjob) djob).d ∧
+    (walkDir o sub (.dir sjob) (walkDir o sub (.dir sjob) djob).d).err = none :=
+  walk_idempotent o hdry sjob sub djob hwf hok
+
+/-- Idempotence of `sync_jobs` when documents are not merged (NO_SYNC, or COPY where the document
+    is an ordinary file of the walk): repeating a successful real sync changes nothing. -/
+theorem sync_idempotent_partial (o : Opts) (hdry : o.dry = false)
+    (hds : o.docSync = .noSync ∨ o.docSync = .copy) (sjob djob : Entries)
+    (hwf : WFEntries sjob) (hok : (syncJobDirs o sjob djob).err = none) :
+    (syncJobDirs o sjob (syncJobDirs o sjob djob).d).d = (syncJobDirs o sjob djob).d ∧
+    (syncJobDirs o sjob (syncJobDirs o sjob djob).d).err = none := by
+  have key : ∀ dst, syncJobDirs o sjob dst =
+      ⟨(walkDir o [] (.dir sjob) dst).d, (walkDir o [] (.dir sjob) dst).log, (walkDir o [] (.dir sjob) dst).err⟩ := by
+    intro dst
+    unfold syncJobDirs
+    dsimp only
+    cases he : (walkDir o [] (.dir sjob) dst).err with
+    | some e => rfl
+    | none => simp only [syncDoc_noSync o _ sjob _ hds]
+  rw [key djob] at hok ⊢
+  rw [key]
+  exact walk_idempotent o hdry sjob [] djob hwf hok
+
+/-- The full idempotence statement of C13 ("repeating the same sync changes nothing"), including
+    the document merge and the loop over the jobs.  Proved in Lean for the file walk
+    (`sync_idempotent_files`) and for job syncs without document merge (`sync_idempotent_partial`);
+    the remaining part (ByKey / update merges, clone-then-sync at the project level) is checked
+    empirically only: every real call is made twice and the model is compared with the second
+    call as well.  (`o.gate` is an input: with check_schema the real gate may refuse the second
+    call because the first one changed the destination's schema.) -/
 def sync_idempotent_full : Prop :=
   ∀ (o : Opts) (e : Entry) (w : World), WFEntries w.src → WFEntries w.dst → o.dry = false →
     (run o e w).err = none →
@@ -167,6 +200,11 @@ example : (names (wsOf exWorld.src)).Nodup ∧ (run exOpts .project exWorld).err
   ⟨by decide, by decide, by rfl, by rfl, by
     intro sn h
     simp [exWorld, wsOf, getE, WS] at h⟩
+
+example : ({ exOpts with docSync := .noSync } : Opts).docSync = .noSync ∧
+    (syncJobDirs { exOpts with docSync := .noSync } exSrcJob exDstJob).err = none ∧
+    (walkDir exOpts ["sub"] (.dir exSrcJob) exDstJob).err = none :=
+  ⟨rfl, by decide, by decide⟩
 
 example : DocOnly [("a", .obj [("x", .int 1)])] [("a", .obj [("y", .int 2)]), ("b", .int 3)] ["a", "y"] ∧
     DocOnly [("a", .obj [("x", .int 1)])] [("a", .obj [("y", .int 2)]), ("b", .int 3)] ["b"] :=
